@@ -372,3 +372,8 @@ Section Oracles.
     rewrite !member_app, M, (member_useless _ _ U1), (member_useless _ _ U2) in H. discriminate.
   Qed.
 End Oracles.
+
+(* the facts about libc's inet_pton that the theorems use, as one premise *)
+Definition pton_lengths (pton4 pton6 : str -> pres) : Prop :=
+  (forall s b, pton4 s = PBytes b -> length b = 4%nat /\ all_bytes b = true) /\
+  (forall s b, pton6 s = PBytes b -> length b = 16%nat /\ all_bytes b = true).
